@@ -128,6 +128,11 @@ func init() {
 			names = "{{if .C}}" + a1 + "{{else}}{{if .D}}" + a1 + "{{else}}" + a2 + "{{end}}{{end}}"
 		case "m":
 			names = "{{if .C}}{{if .D}}" + a2 + "{{else}}" + a1 + "{{end}}{{else}}" + a2 + "{{end}}"
+		case "0":
+			// no else part: the attribute is a1 or nothing at all (a2 is ignored; only C = true is judged)
+			names = "{{if .C}}" + a1 + "{{end}}"
+		case "w":
+			names = "{{with .C}}" + a1 + "{{end}}"
 		}
 		text := "<" + e + " " + names + `="{{.X}}">`
 		fields := []string{hx(e), hx(a1), hx(a2), hx(variant)}
@@ -137,6 +142,11 @@ func init() {
 			attr := a2
 			if cond {
 				attr = a1
+			}
+			if !cond && (variant == "0" || variant == "w") {
+				// the attribute name is empty on this path: not a cell of the policy
+				fields = append(fields, "deny:noelse", "")
+				continue
 			}
 			opre := "<" + e + " " + attr + `="`
 			for _, p := range policyProbes {
@@ -302,6 +312,10 @@ func runC04(c *caseWriter) (string, bool, map[string]int) {
 				}
 				for _, v := range []string{"1", "2", "n", "m"} {
 					emit(c, "cond_attr", e, a1, a2, v)
+				}
+				if j == (i+1)%len(condAttrs) {
+					emit(c, "cond_attr", e, a1, a2, "0")
+					emit(c, "cond_attr", e, a1, a2, "w")
 				}
 			}
 		}
